@@ -9,6 +9,7 @@ import (
 	"sort"
 	"strings"
 
+	"github.com/superfly/litefs"
 	"github.com/superfly/ltx"
 )
 
@@ -20,11 +21,14 @@ func ReadPosMapFrom(r io.Reader) (map[string]ltx.Pos, error) {
 	}
 
 	// Read entries and insert into map.
-	m := make(map[string]ltx.Pos, n)
+	m := make(map[string]ltx.Pos)
 	for i := uint32(0); i < n; i++ {
 		var nameN uint32
 		if err := binary.Read(r, binary.BigEndian, &nameN); err != nil {
 			return nil, err
+		}
+		if nameN > litefs.MaxStreamNameSize {
+			return nil, fmt.Errorf("position map name too large: %d bytes", nameN)
 		}
 		name := make([]byte, nameN)
 		if _, err := io.ReadFull(r, name); err != nil {
